@@ -109,4 +109,158 @@ theorem fieldValue_getLsbD (t : BfType) (w : Nat) (hw : 1 ≤ w) (hw2 : w ≤ 64
 theorem logical_eq_spec (t : BfType) : bfLogical t.implUnsigned t.implBool = bfUnsigned t := by
   cases t <;> decide
 
+/-! ### memory level -/
+
+theorem readLE_getLsbD : ∀ (n : Nat) (m : Mem) (a : Int) (i : Nat), i < 8 * n →
+    (readLE m a n).getLsbD i = (m (a + (i / 8 : Nat))).getLsbD (i % 8) := by
+  intro n
+  induction n with
+  | zero => intro m a i hi; omega
+  | succ n ih =>
+    intro m a i hi
+    simp only [readLE, BitVec.getLsbD_cast, BitVec.getLsbD_append]
+    by_cases h : i < 8
+    · have e1 : i / 8 = 0 := by omega
+      have e2 : i % 8 = i := by omega
+      simp [h, e1, e2]
+    · simp only [h, if_false]
+      rw [ih m (a + 1) (i - 8) (by omega)]
+      have e1 : (a + 1 + ((i - 8) / 8 : Nat) : Int) = a + (i / 8 : Nat) := by omega
+      have e2 : (i - 8) % 8 = i % 8 := by omega
+      rw [e1, e2]
+
+
+theorem writeLE_getLsbD (m : Mem) (a : Int) (n : Nat) (v : BitVec (8 * n)) (i : Nat) (hi : i < 8 * n) :
+    (writeLE m a n v (a + (i / 8 : Nat))).getLsbD (i % 8) = v.getLsbD i := by
+  unfold writeLE
+  have h1 : a ≤ a + ((i / 8 : Nat) : Int) ∧ a + ((i / 8 : Nat) : Int) < a + (n : Int) := by omega
+  rw [if_pos h1, BitVec.getLsbD_extractLsb']
+  have e : (a + ((i / 8 : Nat) : Int) - a).toNat = i / 8 := by omega
+  have h2 : i % 8 < 8 := by omega
+  have e2 : 8 * (i / 8) + i % 8 = i := by omega
+  rw [e, e2]
+  simp [h2]
+
+theorem read_write (m : Mem) (a : Int) (n : Nat) (v : BitVec (8 * n)) : readLE (writeLE m a n v) a n = v := by
+  apply BitVec.eq_of_getLsbD_eq
+  intro i hi
+  rw [readLE_getLsbD n _ a i hi, writeLE_getLsbD m a n v i hi]
+
+theorem write_outside (m : Mem) (a : Int) (n : Nat) (v : BitVec (8 * n)) (x : Int) (h : x < a ∨ a + n ≤ x) :
+    writeLE m a n v x = m x := by
+  unfold writeLE
+  have : ¬ (a ≤ x ∧ x < a + (n : Int)) := by omega
+  rw [if_neg this]
+
+/-- bit `b` of the byte at `x` inside a written range -/
+theorem write_inside_bit (m : Mem) (a : Int) (n : Nat) (v : BitVec (8 * n)) (x : Int) (b : Nat) (hb : b < 8)
+    (h : a ≤ x ∧ x < a + n) : (writeLE m a n v x).getLsbD b = v.getLsbD (8 * (x - a).toNat + b) := by
+  unfold writeLE
+  rw [if_pos h, BitVec.getLsbD_extractLsb']
+  simp [hb]
+
+theorem read_bit (m : Mem) (a : Int) (n : Nat) (x : Int) (b : Nat) (hb : b < 8) (h : a ≤ x ∧ x < a + n) :
+    (readLE m a n).getLsbD (8 * (x - a).toNat + b) = (m x).getLsbD b := by
+  rw [readLE_getLsbD n m a _ (by omega)]
+  have e1 : (8 * (x - a).toNat + b) / 8 = (x - a).toNat := by omega
+  have e2 : (8 * (x - a).toNat + b) % 8 = b := by omega
+  rw [e1, e2]
+  congr 2
+  omega
+
+
+/-- a read depends only on the bits of the field -/
+theorem bfLoadT_congr (t : BfType) (w o : Nat) (hw : 1 ≤ w) (hwo : o + w ≤ t.usize.bits) (u1 u2 : BitVec t.usize.bits)
+    (h : ∀ i, o ≤ i → i < o + w → u1.getLsbD i = u2.getLsbD i) : bfLoadT t w o u1 = bfLoadT t w o u2 := by
+  have hb := t.usize.bits_le
+  apply BitVec.eq_of_getLsbD_eq
+  intro j hj
+  unfold bfLoadT bfLoad
+  rw [extract_getLsbD w o hw (by omega) _ _ _ j hj, extract_getLsbD w o hw (by omega) _ _ _ j hj]
+  have hs1 := loadUnit_getLsbD t.usize t.implUnsigned u1 (w - 1 + o) (by omega)
+  have hs2 := loadUnit_getLsbD t.usize t.implUnsigned u2 (w - 1 + o) (by omega)
+  by_cases hjw : j < w
+  · simp only [hjw, if_true]
+    rw [loadUnit_getLsbD t.usize t.implUnsigned u1 (j + o) (by omega), loadUnit_getLsbD t.usize t.implUnsigned u2 (j + o) (by omega)]
+    exact h (j + o) (by omega) (by omega)
+  · simp only [hjw, if_false]
+    rw [hs1, hs2, h (w - 1 + o) (by omega) (by omega)]
+
+
+theorem bf_mem_roundtrip (t : BfType) (w o : Nat) (hw : 1 ≤ w) (hwo : o + w ≤ t.usize.bits) (m : Mem) (addr : Int) (v : BitVec 64) :
+    bfLoadMem t w o (bfAssignMem t w o m addr v).1 addr = fieldValue t w v := by
+  unfold bfLoadMem bfAssignMem
+  simp only
+  rw [read_write]
+  have hb := t.usize.bits_le
+  -- the unit-level round trip (restated here to avoid a dependency on Props)
+  apply BitVec.eq_of_getLsbD_eq
+  intro j hj
+  rw [fieldValue_getLsbD t w hw (by omega) v j hj]
+  unfold bfLoadT bfLoad bfAssignT bfAssign
+  simp only
+  rw [extract_getLsbD w o hw (by omega) _ _ _ j hj, logical_eq_spec]
+  by_cases h : j < w
+  · simp only [h, if_true]
+    rw [loadUnit_getLsbD _ _ _ _ (by omega)]
+    unfold storeUnit
+    rw [BitVec.getLsbD_setWidth, merged_getLsbD w o hw (by omega) _ _ _ (by omega)]
+    have h1 : j + o < t.usize.bits := by omega
+    have h2 : o ≤ j + o ∧ j + o < o + w := by omega
+    simp [h1, h2]
+  · simp only [h, if_false]
+    rw [loadUnit_getLsbD _ _ _ _ (by omega)]
+    unfold storeUnit
+    rw [BitVec.getLsbD_setWidth, merged_getLsbD w o hw (by omega) _ _ _ (by omega)]
+    have h1 : w - 1 + o < t.usize.bits := by omega
+    have h2 : o ≤ w - 1 + o ∧ w - 1 + o < o + w := by omega
+    simp [h1, h2]
+
+/-- bit `i` of the unit after the assignment, outside the field -/
+theorem bfAssignT_outside (t : BfType) (w o : Nat) (hw : 1 ≤ w) (hwo : o + w ≤ t.usize.bits)
+    (old : BitVec t.usize.bits) (v : BitVec 64) (i : Nat) (hi : i < t.usize.bits) (hout : i < o ∨ o + w ≤ i) :
+    (bfAssignT t w o old v).unit.getLsbD i = old.getLsbD i := by
+  have hb := t.usize.bits_le
+  unfold bfAssignT bfAssign storeUnit
+  simp only
+  rw [BitVec.getLsbD_setWidth, merged_getLsbD w o hw (by omega) _ _ _ (by omega)]
+  have h2 : ¬ (o ≤ i ∧ i < o + w) := by omega
+  simp only [h2, if_false]
+  rw [loadUnit_getLsbD _ _ _ _ hi]
+  simp [hi]
+
+/-- every bit of memory outside the field's absolute bit range keeps its value -/
+theorem bf_mem_bits (t : BfType) (w o : Nat) (hw : 1 ≤ w) (hwo : o + w ≤ t.usize.bits) (m : Mem) (addr : Int) (v : BitVec 64)
+    (x : Int) (b : Nat) (hb : b < 8)
+    (hout : 8 * x + b < 8 * addr + o ∨ 8 * addr + o + w ≤ 8 * x + b) :
+    ((bfAssignMem t w o m addr v).1 x).getLsbD b = (m x).getLsbD b := by
+  unfold bfAssignMem
+  simp only
+  by_cases hin : addr ≤ x ∧ x < addr + (t.usize.bytes : Nat)
+  · rw [write_inside_bit _ _ _ _ x b hb hin]
+    have hi : 8 * (x - addr).toNat + b < t.usize.bits := by
+      have : (x - addr).toNat < t.usize.bytes := by omega
+      show 8 * (x - addr).toNat + b < 8 * t.usize.bytes
+      omega
+    rw [bfAssignT_outside t w o hw hwo _ v _ hi (by omega)]
+    exact read_bit m addr t.usize.bytes x b hb hin
+  · rw [write_outside _ _ _ _ x (by omega)]
+
+/-- another bit-field whose bits are disjoint from the assigned one reads the same value before and after, whatever
+    its declared type and wherever its (possibly overlapping, possibly differently sized) storage unit lies -/
+theorem bf_mem_other_field (t : BfType) (w o : Nat) (hw : 1 ≤ w) (hwo : o + w ≤ t.usize.bits) (m : Mem) (addr : Int) (v : BitVec 64)
+    (t' : BfType) (w' o' : Nat) (hw' : 1 ≤ w') (hwo' : o' + w' ≤ t'.usize.bits) (addr' : Int)
+    (hdis : 8 * addr' + o' + w' ≤ 8 * addr + o ∨ 8 * addr + o + w ≤ 8 * addr' + o') :
+    bfLoadMem t' w' o' (bfAssignMem t w o m addr v).1 addr' = bfLoadMem t' w' o' m addr' := by
+  unfold bfLoadMem
+  apply bfLoadT_congr t' w' o' hw' hwo'
+  intro i h1 h2
+  have hi : i < 8 * t'.usize.bytes := by
+    have : o' + w' ≤ 8 * t'.usize.bytes := hwo'
+    omega
+  rw [readLE_getLsbD _ _ addr' i hi, readLE_getLsbD _ _ addr' i hi]
+  have hb : i % 8 < 8 := by omega
+  apply bf_mem_bits t w o hw hwo m addr v _ _ hb
+  omega
+
 end ChibiVerif.BitField
